@@ -570,6 +570,111 @@ def execute(prop, case):
     return {'fam': 'graph', 'steps': steps}
 
 
+# ---------------------------------------------------------------------------------- small scope, exhaustively
+
+def all_ops(m, nw, ids):
+    """every call of every mutator over a universe of m tasks and nw WBSs, argument lists up to length 2 (repetitions included),
+    every index, every anchor combination, fresh and kept façades"""
+    T = list(range(m))
+    R = list(range(m, m + nw))
+    H = T + R
+    lists2 = [[]] + [[a] for a in T] + [[a, b] for a in T for b in T]
+    none_or = [None] + T
+    ops = []
+    for t in T:
+        for p_ in none_or:
+            ops.append(['setParent', t, p_])
+        for l in lists2:
+            ops.append(['setPreds', t, l])
+            ops.append(['setSuccs', t, l])
+        for x in T:
+            ops += [['prAppend', t, x], ['suAppend', t, x], ['prRemove', t, x], ['suRemove', t, x]]
+        for l in lists2[1:]:
+            single = len(l) == 1
+            ops.append(['lshift', t, l, single])
+            ops.append(['rshift', t, l, single])
+            if single:
+                ops.append(['lshift', t, l, False])
+    for h in H:
+        for l in lists2:
+            ops.append(['setChildren', h, l])
+        for st in ('fresh', 'stale'):
+            for t in T:
+                ops.append(['chAppend', h, t, st])
+                ops.append(['chRemove', h, t, st])
+                for i in range(-2, m + 1):
+                    ops.append(['chInsert', h, i, t, st])
+            for ts in lists2[1:]:
+                single = len(ts) == 1
+                for b, a in [(None, None)] + [(x, None) for x in T] + [(None, x) for x in T] + [(0, 1 % m)]:
+                    ops.append(['chMove', h, ts, b, a, single, st])
+            for rev in (False, True):
+                for key in ('prio', 'id'):
+                    ops.append(['chSort', h, None, rev, key, st])
+            idpool = sorted(set(ids)) + [99]
+            for l in [[]] + [[a] for a in idpool] + [[a, b] for a in idpool for b in idpool]:
+                ops.append(['chReorder', h, l, st])
+        for l in lists2[1:]:
+            ops.append(['floordiv', h, l, len(l) == 1])
+        for sub in ([], [0], [m - 1], T[:2], T):
+            ops.append(['chRemoveAll', h, None, sorted(set(sub))])
+    for w in R:
+        for t in T:
+            ops.append(['wbsRemove', w, t])
+        for sub in ([], [0], [m - 1], T[:2], T):
+            ops.append(['wbsRemoveAll', w, None, sorted(set(sub))])
+    srcs = [['tasks', w] for w in R] + [['children', h] for h in H]
+    for src in srcs:
+        for l in lists2[1:]:
+            single = len(l) == 1
+            ops.append(['listLshift', None, l, src, single])
+            ops.append(['listRshift', None, l, src, single])
+        for p_ in none_or:
+            ops.append(['listSetParent', None, p_, src])
+    return ops
+
+
+def base_states(m, nw):
+    """prefixes (legal calls, made through façades so that kept façades exist) reaching the shapes on which the validations of the
+    setters differ: chain in a WBS, detached chain, flat WBS with a link, member linked to a detached task, link between cousins"""
+    W = m
+    A = lambda h, t: ['chAppend', h, t, 'fresh']
+    sts = [[],
+           [A(W, 0), A(0, 1), A(1, 2)],
+           [A(0, 1), A(1, 2)],
+           [A(W, 0), A(W, 1), A(W, 2), ['prAppend', 1, 0]],
+           [A(W, 0), A(0, 1), ['prAppend', 2, 1]],
+           [A(W, 0), A(W, 1), A(0, 2), ['prAppend', 2, 1]],
+           [A(W, 0), A(0, 1), A(W, 2), ['suAppend', 1, 2], ['chSort', W, None, False, 'id', 'fresh']]]
+    if nw > 1:
+        sts.append([A(W, 0), A(W + 1, 1), A(0, 2), ['prAppend', 2, 1]])
+    if m > 3:
+        sts.append([A(W, 0), A(0, 1), A(1, 2), A(2, 3), ['prAppend', 3, 0] if False else ['prAppend', 1 % m, 3]])
+    return sts
+
+
+def extra_cases(prop, tier, seed):
+    """the small scope, exhaustively: every call over a universe of 3 tasks (ids all different / two sharing an id) and one WBS (thorough:
+    also 2 WBSs and 4 tasks, sampled), from each base state.  quick runs a deterministic 1/40 slice chosen by the seed."""
+    res = []
+    universes = [([1, 2, 3], 1), ([1, 1, 2], 1), ([2, 1, 1], 1)]
+    if tier == 'thorough':
+        universes += [([1, 2, 1], 2), ([1, 2, 3, 1], 1)]
+    k = 0
+    for ids, nw in universes:
+        m = len(ids)
+        ops = all_ops(m, nw, ids)
+        for pre in base_states(m, nw):
+            for op in ops:
+                k += 1
+                if tier == 'quick' and (k + seed) % 40 != 0:
+                    continue
+                if tier == 'thorough' and m * nw > 3 and (k + seed) % 6 != 0:
+                    continue
+                res.append({'ids': ids, 'prio': [(7 * i + 1) % 3 for i in range(m)], 'nw': nw, 'ops': [list(o) for o in pre] + [list(op)], 'scope': 'small'})
+    return res
+
+
 # ---------------------------------------------------------------------------------- judging
 
 WF_CLAUSES = ['listed', 'once', 'forest', 'rootsTop', 'sym', 'dag', 'noAncDep']
@@ -708,7 +813,7 @@ def rule(prop):
     return ('random histories (two in three start with a constructive prefix that grows a forest of some depth and a few links; arguments are steered towards ancestors, descendants, id twins and linked tasks of the receiver in a third of the calls) of 10-30 (thorough: 40) public mutator calls over 3-8 (12) task objects whose ids are drawn from a small '
             'pool (clashes are frequent) and 1-3 WBSs; legal and illegal arguments (self references, repeated elements, tasks of other '
             'trees/WBSs, missing anchors, bad indexes, unknown ids, façades kept across calls); each step is compared with the model run '
-            'from the implementation\'s own pre-state; non-trivial = >=1 accepted and >=1 rejected call; distinct = distinct (ids, ops)')
+            'from the implementation\'s own pre-state; non-trivial = >=1 accepted and >=1 rejected call; distinct = distinct (ids, ops); plus the small scope exhaustively (every call of every mutator with every argument combination up to lists of 2 over 3-4 tasks, from 7-9 base states; quick: a 1/40 slice chosen by the seed)')
 
 
 def distribution(prop, cases, outcomes):
